@@ -279,8 +279,12 @@ func genLife(r *hx.Rng, idx int) script {
 	next := 0
 	take := func() int { v := perm[next%n]; next++; return v }
 	budget := k - 1                   // shares that may be counted before the live traffic starts
-	if r.Chance(1, 5) && budget > 0 { // filed under the hash before any party exists
-		lines = append(lines, "m "+honest(take()))
+	if r.Chance(1, 4) && budget > 0 { // filed under the hash before any party exists
+		v := take()
+		if r.Chance(1, 2) { // somebody else names v first
+			lines = append(lines, "m "+forged(r, v, n, ""))
+		}
+		lines = append(lines, "m "+honest(v))
 		budget--
 	}
 	switch r.Intn(10) {
@@ -303,6 +307,9 @@ func genLife(r *hx.Rng, idx int) script {
 					lines = append(lines, fmt.Sprintf("m signer=%d filed=K sig=junk", i))
 				default:
 					if budget > 0 {
+						if r.Chance(1, 2) {
+							lines = append(lines, "m "+forged(r, i, n, " filed=K"))
+						}
 						lines = append(lines, fmt.Sprintf("m signer=%d filed=K", i))
 						budget--
 						if r.Chance(1, 3) { // the same bytes again: round0 refuses the known id
@@ -313,7 +320,11 @@ func genLife(r *hx.Rng, idx int) script {
 			}
 		}
 		for c := r.Intn(3); c > 0 && budget > 0; c-- {
-			lines = append(lines, "m "+honest(take()))
+			v := take()
+			if r.Chance(1, 2) {
+				lines = append(lines, "m "+forged(r, v, n, ""))
+			}
+			lines = append(lines, "m "+honest(v))
 			budget--
 		}
 		if r.Chance(1, 6) {
